@@ -1,21 +1,45 @@
 #!/usr/bin/env python3-vt
 """Independent JSON Schema draft-07 verdicts (jsonschema.Draft7Validator) for the
-oracle self-check of Schema!Valid.  Input: JSON list of {defs, name, val, tla}."""
-import json, sys
+oracle self-check of Schema!Valid.  Input: JSON list of {defs, name, val, tla}.
+Large inputs are split over worker processes (contiguous chunks, so that the
+per-document validator cache stays effective)."""
+import json, sys, os
+from concurrent.futures import ProcessPoolExecutor
 from jsonschema import Draft7Validator
 
-items = json.load(open(sys.argv[1]))
-dis = []
-cache = {}
-for i, it in enumerate(items):
-    key = json.dumps(it["defs"], sort_keys=True) + "|" + it["name"]
-    v = cache.get(key)
-    if v is None:
-        doc = {"definitions": it["defs"], "$ref": "#/definitions/" + it["name"]}
-        v = Draft7Validator(doc)
-        cache[key] = v
-    ok = v.is_valid(it["val"])
-    if ok != it["tla"]:
-        dis.append({"index": i, "name": it["name"], "val": it["val"], "tla": it["tla"], "python": ok,
-                    "schema": it["defs"][it["name"]]})
-print(json.dumps({"checked": len(items), "disagreements": dis[:20], "n_disagree": len(dis)}))
+
+def work(args):
+    base, items = args
+    dis, cache = [], {}
+    for i, it in enumerate(items):
+        key = json.dumps(it["defs"], sort_keys=True) + "|" + it["name"]
+        v = cache.get(key)
+        if v is None:
+            doc = {"definitions": it["defs"], "$ref": "#/definitions/" + it["name"]}
+            v = Draft7Validator(doc)
+            cache[key] = v
+        ok = v.is_valid(it["val"])
+        if ok != it["tla"]:
+            dis.append({"index": base + i, "name": it["name"], "val": it["val"], "tla": it["tla"], "python": ok,
+                        "schema": it["defs"][it["name"]]})
+    return dis
+
+
+def main():
+    items = json.load(open(sys.argv[1]))
+    n = len(items)
+    nproc = 1 if n < 20000 else min(12, os.cpu_count() or 1)
+    if nproc == 1:
+        dis = work((0, items))
+    else:
+        size = -(-n // nproc)
+        chunks = [(k, items[k:k + size]) for k in range(0, n, size)]
+        dis = []
+        with ProcessPoolExecutor(max_workers=nproc) as ex:
+            for d in ex.map(work, chunks):
+                dis += d
+    print(json.dumps({"checked": n, "disagreements": dis[:20], "n_disagree": len(dis)}))
+
+
+if __name__ == "__main__":
+    main()
